@@ -83,6 +83,33 @@ func runFLAGS(c *Ctx) {
 							continue
 						}
 					}
+					// a constructor helper taking the flags as parameters (emptyLike(dirty, shared)): decided by what
+					// every call site passes — the constant false, or another node's shared flag (a copy)
+					if prm, isP := ir.ResolveCell(st.Val).(*ssa.Parameter); isP && prm.Parent() == fn && fn.Parent() == nil &&
+						fn.Object() != nil && !fn.Object().Exported() && !c.Facts.addrTaken[fn] && len(P.Callers[fn]) > 0 {
+						allOK := true
+						for _, cs := range P.Callers[fn] {
+							args := cs.Common().Args
+							if paramIndex(prm) >= len(args) {
+								allOK = false
+								continue
+							}
+							a := args[paramIndex(prm)]
+							if cv, isC := ir.ConstBool(a); isC && !cv {
+								continue
+							}
+							if ld, ok := a.(*ssa.UnOp); ok && ld.Op == token.MUL {
+								if fa, ok := ld.X.(*ssa.FieldAddr); ok && isNodePtr(fa.X.Type()) && ir.FieldName(fa.X.Type(), fa.Field) == "shared" {
+									continue
+								}
+							}
+							allOK = false
+						}
+						if allOK {
+							c.OK(pos, what, "constructor parameter: every caller passes false or another node's shared flag (a copy)", true)
+							continue
+						}
+					}
 					c.Undecided(fn, pos, "shared set from a non-constant", "cannot tell whether the node becomes shared here")
 					continue
 				}
@@ -372,7 +399,33 @@ func runSHAREDPUB(c *Ctx) {
 				continue
 			}
 			v := r.Results[0]
-			if _, fromCache := ir.Strip(v).(*ssa.TypeAssert); fromCache {
+			var fromCacheVal func(v ssa.Value, d int) bool
+			fromCacheVal = func(v ssa.Value, d int) bool {
+				v = ir.Strip(ir.ResolveCell(v))
+				if _, isTA := v.(*ssa.TypeAssert); isTA {
+					return true
+				}
+				// a cache-lookup helper (cachedNode(key)): every node it returns comes out of the cache
+				if ex, ok := v.(*ssa.Extract); ok && ex.Index == 0 && d < 2 {
+					if call, ok := ex.Tuple.(*ssa.Call); ok {
+						if h := ir.Callee(call.Call); h != nil && h.Blocks != nil && isOwn(P, h) {
+							n := 0
+							for _, hr := range ir.Returns(h) {
+								if ir.IsNilConst(hr.Results[0]) {
+									continue
+								}
+								n++
+								if !fromCacheVal(hr.Results[0], d+1) {
+									return false
+								}
+							}
+							return n > 0
+						}
+					}
+				}
+				return false
+			}
+			if fromCacheVal(v, 0) {
 				c.OK(P.InstrPos(r), "loader returns a cached node", "published earlier under the same rule", true)
 				continue
 			}
